@@ -5,19 +5,19 @@ Import ListNotations.
 Open Scope Z_scope.
 
 (** * Conservative extension: without failing blocks it is [deliver] *)
-Lemma ok_prefix_none : forall bad l p, ok_prefix bad l = (p, None) -> p = l.
+Lemma ok_prefix_none : forall bad ref l p, ok_prefix bad ref l = (p, None) -> p = l.
 Proof.
   induction l as [|b tl]; simpl; intros p H.
   - inversion H; auto.
-  - destruct (bad (k_id b)); [discriminate|].
-    destruct (ok_prefix bad tl) as [p' f] eqn:E. inversion H; subst. f_equal. apply IHtl; auto.
+  - destruct (ref (k_id b)); [discriminate|]. destruct (bad (k_id b)); [discriminate|].
+    destruct (ok_prefix bad ref tl) as [p' f] eqn:E. inversion H; subst. f_equal. apply IHtl; auto.
 Qed.
 
-Lemma ok_prefix_false : forall l, ok_prefix (fun _ => false) l = (l, None).
+Lemma ok_prefix_false : forall l, ok_prefix (fun _ => false) (fun _ => false) l = (l, None).
 Proof. induction l; simpl; auto. rewrite IHl. reflexivity. Qed.
 
 Theorem deliver_f_no_bad : forall nd blk,
-  deliver_f (fun _ => false) nd blk = (fst (deliver nd blk), FO (snd (deliver nd blk))).
+  deliver_f (fun _ => false) (fun _ => false) nd blk = (fst (deliver nd blk), FO (snd (deliver nd blk))).
 Proof.
   intros. unfold deliver_f, deliver.
   destruct (find_block (nd_store nd) (k_id blk)); [reflexivity|].
@@ -39,7 +39,7 @@ Proof.
   intros. unfold update_to_best. destruct (rev main). lia. apply status_update_lib_mono.
 Qed.
 
-Theorem deliver_f_lib_mono : forall bad nd blk, lib_no nd <= lib_no (fst (deliver_f bad nd blk)).
+Theorem deliver_f_lib_mono : forall bad ref nd blk, lib_no nd <= lib_no (fst (deliver_f bad ref nd blk)).
 Proof.
   intros. unfold lib_no, deliver_f.
   destruct (find_block (nd_store nd) (k_id blk)); cbn [fst]; [lia|].
@@ -47,36 +47,37 @@ Proof.
   destruct (find_block (nd_store nd) (k_prev blk)); cbn [fst]; [|lia].
   destruct (negb (k_no b + 1 =? k_no blk)); cbn [fst]; [lia|].
   destruct (k_prev blk =? k_id _).
-  { destruct (bad (k_id blk)); cbn [fst nd_st exec_fail].
+  { destruct (ref (k_id blk)); cbn [fst]; [lia|]. destruct (bad (k_id blk)); cbn [fst nd_st exec_fail].
     - apply update_to_best_lib_mono.
     - apply status_update_lib_mono. }
   destruct (k_no blk <=? k_no _); cbn [fst nd_st]; [lia|].
   destruct (gather _ _ _ _ _) as [[root nb]|]; cbn [fst]; [|lia].
   destruct (negb (need_reorganization _ _)); cbn [fst nd_st]; [lia|].
-  destruct (ok_prefix bad nb) as [okb failed].
+  destruct (ok_prefix bad ref nb) as [okb failed].
   set (g := main_get (firstn (Z.to_nat (k_no root) + 1) (nd_main nd))).
   set (st1 := status_update g [] (nd_size nd) (nd_st nd) root).
   set (st2 := fold_left (status_update g [] (nd_size nd)) okb st1).
   assert (M : b_no (ls_lib (st_ls (nd_st nd))) <= b_no (ls_lib (st_ls st2))).
   { eapply Z.le_trans. 2: apply fold_status_update_lib_mono. apply status_update_lib_mono. }
-  destruct failed; cbn [fst nd_st]; auto.
-  eapply Z.le_trans. exact M. eapply Z.le_trans; apply update_to_best_lib_mono.
+  destruct failed as [[fb [|]]|]; cbn [fst nd_st]; auto.
+  - eapply Z.le_trans. exact M. apply update_to_best_lib_mono.
+  - eapply Z.le_trans. exact M. eapply Z.le_trans; apply update_to_best_lib_mono.
 Qed.
 
-Theorem deliver_f_main_stable : forall bad nd blk h b,
-  0 <= h <= lib_no nd -> main_at nd h = Some b -> main_at (fst (deliver_f bad nd blk)) h = Some b.
+Theorem deliver_f_main_stable : forall bad ref nd blk h b,
+  0 <= h <= lib_no nd -> main_at nd h = Some b -> main_at (fst (deliver_f bad ref nd blk)) h = Some b.
 Proof.
-  intros bad nd blk h b Hh M. unfold main_at, lib_no, deliver_f in *.
+  intros bad ref nd blk h b Hh M. unfold main_at, lib_no, deliver_f in *.
   destruct (find_block (nd_store nd) (k_id blk)); cbn [fst]; auto.
   destruct (negb (verify_lib_rule _ blk)); cbn [fst]; auto.
   destruct (find_block (nd_store nd) (k_prev blk)); cbn [fst]; auto.
   destruct (negb (k_no b0 + 1 =? k_no blk)); cbn [fst]; auto.
   destruct (k_prev blk =? k_id _).
-  { destruct (bad (k_id blk)); cbn [fst nd_main exec_fail]; auto. apply main_get_app; auto. }
+  { destruct (ref (k_id blk)); cbn [fst]; auto. destruct (bad (k_id blk)); cbn [fst nd_main exec_fail]; auto. apply main_get_app; auto. }
   destruct (k_no blk <=? k_no _); cbn [fst nd_main]; auto.
   destruct (gather _ _ _ _ _) as [[root nb]|]; cbn [fst]; auto.
   destruct (negb (need_reorganization _ _)) eqn:Ev; cbn [fst nd_main]; auto.
-  destruct (ok_prefix bad nb) as [okb failed]. destruct failed; cbn [fst nd_main]; auto.
+  destruct (ok_prefix bad ref nb) as [okb failed]. destruct failed as [[fb [|]]|]; cbn [fst nd_main]; auto.
   apply main_get_firstn_app; auto.
   unfold need_reorganization in Ev. apply negb_false_iff, Z.leb_le in Ev. lia.
 Qed.
@@ -90,25 +91,26 @@ Definition f25_events : list fevent :=
   map FDeliver [mkBlk 1 0 1 1 1; mkBlk 2 1 2 0 2; mkBlk 3 2 3 0 1; mkBlk 4 3 4 0 1;
                 mkBlk 5 0 1 0 1; mkBlk 6 5 2 0 1; mkBlk 7 6 3 1 2; mkBlk 8 7 4 0 2; mkBlk 9 8 5 0 1].
 Definition f25_bad (id : Z) : bool := id =? 9.
-Local Notation f25_node := (run_f f25_bad (init_node 2 0) f25_events).
+Definition f25_ref (id : Z) : bool := false.
+Local Notation f25_node := (run_f f25_bad f25_ref (init_node 2 0) f25_events).
 
 Example f25_values :
   ls_lib (st_ls (nd_st f25_node)) = mkB 6 2 1 /\ main_ids f25_node = [0; 1; 2; 3; 4].
 Proof. vm_compute. split; reflexivity. Qed.
 Example f25_off_main : lib_on_main f25_node = false.
 Proof. vm_compute. reflexivity. Qed.
-Example f25_restart_decreases : lib_no (step_f f25_bad f25_node FRestart) < lib_no f25_node.
+Example f25_restart_decreases : lib_no (step_f f25_bad f25_ref f25_node FRestart) < lib_no f25_node.
 Proof. vm_compute. reflexivity. Qed.
 
 Theorem lib_on_main_chain_failed_reorg_refuted :
-  exists bad size self evs, lib_on_main (run_f bad (init_node size self) evs) = false.
-Proof. exists f25_bad. exists 2. exists 0. exists f25_events. exact f25_off_main. Qed.
+  exists bad ref size self evs, lib_on_main (run_f bad ref (init_node size self) evs) = false.
+Proof. exists f25_bad. exists f25_ref. exists 2. exists 0. exists f25_events. exact f25_off_main. Qed.
 
 Theorem lib_monotone_failed_reorg_refuted :
-  exists bad size self evs,
-    lib_no (step_f bad (run_f bad (init_node size self) evs) FRestart) <
-    lib_no (run_f bad (init_node size self) evs).
-Proof. exists f25_bad. exists 2. exists 0. exists f25_events. exact f25_restart_decreases. Qed.
+  exists bad ref size self evs,
+    lib_no (step_f bad ref (run_f bad ref (init_node size self) evs) FRestart) <
+    lib_no (run_f bad ref (init_node size self) evs).
+Proof. exists f25_bad. exists f25_ref. exists 2. exists 0. exists f25_events. exact f25_restart_decreases. Qed.
 
 
 (** * An invalid child of the best block leaves every invariant intact *)
@@ -172,73 +174,229 @@ Proof.
     + unfold status_update. fold best. rewrite Ep. cbn [st_ls]. simpl. rewrite rollback_lib. exact V.
 Qed.
 
-Lemma deliver_f_FO : forall bad nd blk o,
-  snd (deliver_f bad nd blk) = FO o -> fst (deliver_f bad nd blk) = fst (deliver nd blk).
+Lemma deliver_f_FO : forall bad ref nd blk o,
+  snd (deliver_f bad ref nd blk) = FO o -> fst (deliver_f bad ref nd blk) = fst (deliver nd blk).
 Proof.
-  intros bad nd blk o. unfold deliver_f, deliver.
+  intros bad ref nd blk o. unfold deliver_f, deliver.
   destruct (find_block (nd_store nd) (k_id blk)); [reflexivity|].
   destruct (negb (verify_lib_rule _ blk)); [reflexivity|].
   destruct (find_block (nd_store nd) (k_prev blk)); [|reflexivity].
   destruct (negb (k_no b + 1 =? k_no blk)); [reflexivity|].
   destruct (k_prev blk =? k_id _).
-  { destruct (bad (k_id blk)); cbn [snd fst]; [discriminate|reflexivity]. }
+  { destruct (ref (k_id blk)); cbn [snd fst]; [discriminate|]. destruct (bad (k_id blk)); cbn [snd fst]; [discriminate|reflexivity]. }
   destruct (k_no blk <=? k_no _); [reflexivity|].
   destruct (gather _ _ _ _ _) as [[root nb]|]; [|reflexivity].
   destruct (negb (need_reorganization _ _)); [reflexivity|].
-  destruct (ok_prefix bad nb) as [okb failed] eqn:E. destruct failed; cbn [snd fst]; [discriminate|].
-  intros _. rewrite (ok_prefix_none _ _ _ E). reflexivity.
+  destruct (ok_prefix bad ref nb) as [okb failed] eqn:E. destruct failed as [[fb [|]]|]; cbn [snd fst]; try discriminate.
+  intros _. rewrite (ok_prefix_none _ _ _ _ E). reflexivity.
 Qed.
 
-Lemma deliver_f_exec_failed : forall bad nd blk,
-  snd (deliver_f bad nd blk) = FExecFailed -> fst (deliver_f bad nd blk) = exec_fail nd.
+Lemma deliver_f_exec_failed : forall bad ref nd blk,
+  snd (deliver_f bad ref nd blk) = FExecFailed -> fst (deliver_f bad ref nd blk) = exec_fail nd.
 Proof.
-  intros bad nd blk. unfold deliver_f.
+  intros bad ref nd blk. unfold deliver_f.
   destruct (find_block (nd_store nd) (k_id blk)); [discriminate|].
   destruct (negb (verify_lib_rule _ blk)); [discriminate|].
   destruct (find_block (nd_store nd) (k_prev blk)); [|discriminate].
   destruct (negb (k_no b + 1 =? k_no blk)); [discriminate|].
   destruct (k_prev blk =? k_id _).
-  { destruct (bad (k_id blk)); cbn [snd fst]; [reflexivity|discriminate]. }
+  { destruct (ref (k_id blk)); cbn [snd fst]; [discriminate|]. destruct (bad (k_id blk)); cbn [snd fst]; [reflexivity|discriminate]. }
   destruct (k_no blk <=? k_no _); [discriminate|].
   destruct (gather _ _ _ _ _) as [[root nb]|]; [|discriminate].
   destruct (negb (need_reorganization _ _)); [discriminate|].
-  destruct (ok_prefix bad nb) as [okb failed]. destruct failed; cbn [snd]; discriminate.
+  destruct (ok_prefix bad ref nb) as [okb failed]. destruct failed as [[fb [|]]|]; cbn [snd]; discriminate.
 Qed.
 
-(** histories in which no reorganisation fails (invalid blocks only as children of the best block) *)
-Fixpoint no_failed_reorg (bad : Z -> bool) (nd : node) (evs : list fevent) : Prop :=
+Lemma deliver_f_refused : forall bad ref nd blk,
+  snd (deliver_f bad ref nd blk) = FRefused -> fst (deliver_f bad ref nd blk) = nd.
+Proof.
+  intros bad ref nd blk. unfold deliver_f.
+  destruct (find_block (nd_store nd) (k_id blk)); [discriminate|].
+  destruct (negb (verify_lib_rule _ blk)); [discriminate|].
+  destruct (find_block (nd_store nd) (k_prev blk)); [|discriminate].
+  destruct (negb (k_no b + 1 =? k_no blk)); [discriminate|].
+  destruct (k_prev blk =? k_id _).
+  { destruct (ref (k_id blk)); cbn [snd fst]; [reflexivity|]. destruct (bad (k_id blk)); cbn [snd]; discriminate. }
+  destruct (k_no blk <=? k_no _); [discriminate|].
+  destruct (gather _ _ _ _ _) as [[root nb]|]; [|discriminate].
+  destruct (negb (need_reorganization _ _)); [discriminate|].
+  destruct (ok_prefix bad ref nb) as [okb failed]. destruct failed as [[fb [|]]|]; cbn [snd]; discriminate.
+Qed.
+
+(** histories in which no reorganisation fails in the middle (invalid or refused blocks only as
+    children of the best block) *)
+Fixpoint no_failed_reorg (bad ref : Z -> bool) (nd : node) (evs : list fevent) : Prop :=
   match evs with
   | [] => True
   | FDeliver b :: tl =>
-      blk_ok b /\ snd (deliver_f bad nd b) <> FReorgFailed /\ no_failed_reorg bad (fst (deliver_f bad nd b)) tl
-  | FRestart :: tl => no_failed_reorg bad (restart nd) tl
+      blk_ok b /\ snd (deliver_f bad ref nd b) <> FReorgFailed /\ snd (deliver_f bad ref nd b) <> FReorgRefused /\
+      no_failed_reorg bad ref (fst (deliver_f bad ref nd b)) tl
+  | FRestart :: tl => no_failed_reorg bad ref (restart nd) tl
   end.
 
-Lemma run_f_NI : forall bad evs nd, NI nd -> no_failed_reorg bad nd evs -> NI (run_f bad nd evs).
+Lemma run_f_NI : forall bad ref evs nd, NI nd -> no_failed_reorg bad ref nd evs -> NI (run_f bad ref nd evs).
 Proof.
   unfold run_f. induction evs as [|e tl]; simpl; intros nd N H; auto.
   destruct e as [b|]; simpl.
-  - destruct H as [Hb [Hr Ht]]. apply IHtl; auto.
-    destruct (snd (deliver_f bad nd b)) as [o| |] eqn:O.
-    + rewrite (deliver_f_FO _ _ _ _ O). apply deliver_NI; auto.
-    + rewrite (deliver_f_exec_failed _ _ _ O). apply exec_fail_NI; auto.
+  - destruct H as [Hb [Hr [Hr2 Ht]]]. apply IHtl; auto.
+    destruct (snd (deliver_f bad ref nd b)) as [o| | | |] eqn:O.
+    + rewrite (deliver_f_FO _ _ _ _ _ O). apply deliver_NI; auto.
+    + rewrite (deliver_f_exec_failed _ _ _ _ O). apply exec_fail_NI; auto.
+    + congruence.
+    + rewrite (deliver_f_refused _ _ _ _ O). exact N.
     + congruence.
   - apply IHtl; auto. apply restart_NI; auto.
 Qed.
 
-(** [lib_on_main_chain_partial_f]: with invalid blocks delivered, as long as no reorganisation
-    fails in the middle, the LIB (and all proposals) stay on the main chain. *)
-Theorem lib_on_main_chain_partial_f : forall bad size self evs,
-  no_failed_reorg bad (init_node size self) evs ->
-  lib_on_main (run_f bad (init_node size self) evs) = true.
+(** [lib_on_main_chain_partial_f]: with invalid or refused blocks delivered, as long as no
+    reorganisation fails in the middle, the LIB (and all proposals) stay on the main chain. *)
+Theorem lib_on_main_chain_partial_f : forall bad ref size self evs,
+  no_failed_reorg bad ref (init_node size self) evs ->
+  lib_on_main (run_f bad ref (init_node size self) evs) = true.
 Proof. intros. apply NI_lib_on_main, run_f_NI; auto. apply NI_init. Qed.
 
 Example no_failed_reorg_example :
-  no_failed_reorg (fun id => id =? 2) (init_node 1 0)
-    [FDeliver (mkBlk 1 0 1 0 1); FDeliver (mkBlk 2 1 2 0 1); FRestart; FDeliver (mkBlk 3 1 2 0 1)] /\
-  lib_no (run_f (fun id => id =? 2) (init_node 1 0)
-    [FDeliver (mkBlk 1 0 1 0 1); FDeliver (mkBlk 2 1 2 0 1); FRestart; FDeliver (mkBlk 3 1 2 0 1)]) = 2.
+  no_failed_reorg (fun id => id =? 2) (fun id => id =? 4) (init_node 1 0)
+    [FDeliver (mkBlk 1 0 1 0 1); FDeliver (mkBlk 2 1 2 0 1); FRestart; FDeliver (mkBlk 4 1 2 0 1); FDeliver (mkBlk 3 1 2 0 1)] /\
+  lib_no (run_f (fun id => id =? 2) (fun id => id =? 4) (init_node 1 0)
+    [FDeliver (mkBlk 1 0 1 0 1); FDeliver (mkBlk 2 1 2 0 1); FRestart; FDeliver (mkBlk 4 1 2 0 1); FDeliver (mkBlk 3 1 2 0 1)]) = 2.
 Proof.
   split; [|vm_compute; reflexivity].
   simpl. unfold blk_ok. simpl. repeat split; try lia; try discriminate.
 Qed.
+
+(** After a reorganisation abandoned at ANY block (execution failure or IsBlockValid refusal) the
+    confirms list is the one rebuilt from the main chain: the last call is Update(old best) on the
+    rollback path, whatever the height of the failing block relative to the old best block. *)
+Lemma update_to_best_confirms_on_main : forall nd st,
+  NI nd -> k_id (st_best st) <> k_prev (st_best (nd_st nd)) ->
+  Forall (fun c => onm (nd_main nd) (c_bi c)) (ls_confirms (st_ls (update_to_best (nd_main nd) nd st))).
+Proof.
+  intros nd st N Hne. pose proof (NI_WF _ N) as W. unfold WFn in W.
+  destruct (rev_last_WF _ _ _ W) as [tl R]. unfold update_to_best. rewrite R.
+  set (best := st_best (nd_st nd)) in *.
+  unfold status_update. replace (k_id (st_best st) =? k_prev best) with false by (symmetry; apply Z.eqb_neq; auto).
+  cbn [st_ls]. unfold set_cr, gc, set_prpsd, set_confirms. cbn [ls_confirms].
+  unfold trim_front. apply skipn_forall. apply drop_le_lib_forall.
+  unfold rollback_status_to, load. cbv zeta. cbn [ls_cr ls_self set_prpsd set_confirms ls_confirms].
+  destruct (k_no best =? 0); [constructor|].
+  match goal with |- context [load_plib_status ?g ?b ?e ?c ?s] => destruct (load_plib_status g b e c s) as [tmp|] eqn:L end; [|constructor].
+  assert (T : SI (onm (nd_main nd)) tmp).
+  { unfold load_plib_status in L.
+    destruct (_ =? k_no best); try discriminate. destruct (_ >? k_no best); try discriminate.
+    eapply replay_SI. 4: exact L.
+    - intros i b Gb. apply onm_info_of. destruct (wf_height _ _ _ W _ _ Gb) as [Hb _]. rewrite Hb. exact Gb.
+    - apply gen_onm. apply (wf_gen _ _ _ W).
+    - unfold SI, new_lib_status_cr; simpl; auto. }
+  destruct T as [Tc _]. unfold set_prpsd, set_confirms. cbn [ls_confirms].
+  destruct (ls_confirms tmp) eqn:C; cbn [ls_confirms]; [constructor|]. exact Tc.
+Qed.
+
+Lemma update_to_best_best : forall nd st, NI nd ->
+  st_best (update_to_best (nd_main nd) nd st) = st_best (nd_st nd).
+Proof.
+  intros nd st N. pose proof (NI_WF _ N) as W. unfold WFn in W.
+  destruct (rev_last_WF _ _ _ W) as [tl R]. unfold update_to_best. rewrite R. reflexivity.
+Qed.
+
+(** [reorg_failed_confirms_on_main]: a reorganisation abandoned on an execution failure ends with
+    executeBlock's Update(old best) followed by reorg's own Update(old best); the second one always
+    takes the rollback path (the status' best block is the old best block, which is not its own
+    parent), so the confirms list is rebuilt from the main chain wherever the failing block was. *)
+Theorem reorg_failed_confirms_on_main : forall bad ref nd blk,
+  NI nd -> snd (deliver_f bad ref nd blk) = FReorgFailed ->
+  Forall (fun c => onm (nd_main nd) (c_bi c))
+         (ls_confirms (st_ls (nd_st (fst (deliver_f bad ref nd blk))))).
+Proof.
+  intros bad ref nd blk N. unfold deliver_f.
+  destruct (find_block (nd_store nd) (k_id blk)); [discriminate|].
+  destruct (negb (verify_lib_rule _ blk)); [discriminate|].
+  destruct (find_block (nd_store nd) (k_prev blk)); [|discriminate].
+  destruct (negb (k_no b + 1 =? k_no blk)); [discriminate|].
+  destruct (k_prev blk =? k_id _).
+  { destruct (ref (k_id blk)); cbn [snd fst]; [discriminate|]. destruct (bad (k_id blk)); cbn [snd]; discriminate. }
+  destruct (k_no blk <=? k_no _); [discriminate|].
+  destruct (gather _ _ _ _ _) as [[root nb]|]; [|discriminate].
+  destruct (negb (need_reorganization _ _)); [discriminate|].
+  destruct (ok_prefix bad ref nb) as [okb failed]. destruct failed as [[fb [|]]|]; cbn [snd fst nd_st]; try discriminate.
+  intros _. apply update_to_best_confirms_on_main; auto.
+  rewrite update_to_best_best by auto. apply Z.eqb_neq. apply best_not_own_parent; auto.
+Qed.
+
+(** [reorg_refused_confirms_on_main]: when the branch block is refused by IsBlockValid only reorg's
+    Update(old best) runs, from the status of the last executed branch block (or the branch root).
+    It takes the rollback path because Update compares HASHES: the status' best block is the
+    parent of the old best block only when the branch root is, and then Update legitimately
+    re-extends the root with the old best block.  A height comparison would take the extend path
+    whenever the refused block is at the old best block's height. *)
+Theorem reorg_refused_confirms_on_main : forall bad ref nd blk,
+  NI nd -> snd (deliver_f bad ref nd blk) = FReorgRefused ->
+  forall root nb, gather (length (blk :: nd_store nd)) (nd_main nd) (blk :: nd_store nd) blk [] = Some (root, nb) ->
+  k_id (last (fst (ok_prefix bad ref nb)) root) <> k_prev (st_best (nd_st nd)) ->
+  Forall (fun c => onm (nd_main nd) (c_bi c))
+         (ls_confirms (st_ls (nd_st (fst (deliver_f bad ref nd blk))))).
+Proof.
+  intros bad ref nd blk N. unfold deliver_f.
+  destruct (find_block (nd_store nd) (k_id blk)); [discriminate|].
+  destruct (negb (verify_lib_rule _ blk)); [discriminate|].
+  destruct (find_block (nd_store nd) (k_prev blk)); [|discriminate].
+  destruct (negb (k_no b + 1 =? k_no blk)); [discriminate|].
+  destruct (k_prev blk =? k_id _).
+  { destruct (ref (k_id blk)); cbn [snd fst]; [discriminate|]. destruct (bad (k_id blk)); cbn [snd]; discriminate. }
+  destruct (k_no blk <=? k_no _); [discriminate|].
+  destruct (gather _ _ _ _ _) as [[root nb]|]; [|discriminate].
+  destruct (negb (need_reorganization _ _)); [discriminate|].
+  destruct (ok_prefix bad ref nb) as [okb failed] eqn:OP. destruct failed as [[fb [|]]|]; cbn [snd fst nd_st]; try discriminate.
+  intros _ root' nb' E Hne. inversion E; subst root' nb'. rewrite OP in Hne. cbn [fst] in Hne.
+  apply update_to_best_confirms_on_main; auto.
+  replace (st_best (fold_left _ okb _)) with (last okb root); [exact Hne|]. clear Hne.
+  assert (Lc : forall (l : list block) x d, last (x :: l) d = last l x).
+  { induction l as [|y l IH]; intros x d; [reflexivity|]. change (last (x :: y :: l) d) with (last (y :: l) d).
+    rewrite (IH y d), (IH y x). reflexivity. }
+  assert (G : forall l s,
+     last l (st_best s) = st_best (fold_left (status_update (main_get (firstn (Z.to_nat (k_no root) + 1) (nd_main nd))) [] (nd_size nd)) l s)).
+  { induction l as [|x l IH]; intros s; [reflexivity|]. rewrite Lc. cbn [fold_left]. rewrite <- IH. reflexivity. }
+  rewrite <- G. reflexivity.
+Qed.
+
+(** The extend-vs-rollback test of Status.Update is the HASH linkage [k_id best = k_prev blk].
+    [status_update_by_height] is the same function with the test replaced by the height
+    comparison [k_no best + 1 = k_no blk]; the two agree on every call the chain service makes
+    except reorg's Update(old best) after a refusal at the old best block's height. *)
+Definition status_update_by_height (g : Z -> option block) (bps : list Z) (size : Z) (s : status) (blk : block) : status :=
+  let ls :=
+    if k_no (st_best s) + 1 =? k_no blk then
+      let ls1 := add_confirm_info (st_ls s) blk in
+      match update ls1 with
+      | (ls2, Some l) => update_lib ls2 l
+      | (ls2, None) => ls2
+      end
+    else rollback_status_to g (st_ls s) (k_no blk) in
+  mkSt (set_cr (gc ls bps) (confirms_required size)) blk.
+
+Local Notation r4_a1 := (mkBlk 1 0 1 0 1).
+Local Notation r4_a2 := (mkBlk 2 1 2 1 2).
+Local Notation r4_a3 := (mkBlk 3 2 3 2 3).
+Local Notation r4_b1 := (mkBlk 11 0 1 3 1).
+Local Notation r4_b2 := (mkBlk 12 11 2 3 1).
+Local Notation r4_b3 := (mkBlk 13 12 3 3 1).
+Local Notation r4_b4 := (mkBlk 14 13 4 3 1).
+Local Notation r4_pre :=
+  (run_f (fun _ => false) (fun id => id =? 13) (init_node 4 0)
+     [FDeliver r4_a1; FDeliver r4_a2; FDeliver r4_a3; FDeliver r4_b1; FDeliver r4_b2; FDeliver r4_b3]).
+Local Notation r4_st2 :=
+  (fold_left (status_update (main_get [genesis_block]) [] 4) [r4_b1; r4_b2]
+     (status_update (main_get [genesis_block]) [] 4 (nd_st r4_pre) genesis_block)).
+
+Definition confirm_ids (s : status) : list Z := map (fun c => b_id (c_bi c)) (ls_confirms (st_ls s)).
+
+(** main chain g-a1-a2-a3, branch g-b1-b2-b3-b4 with b3 refused by IsBlockValid (b3 is at the
+    height of the old best block a3): the model's Update(a3) rebuilds the confirms list from the
+    main chain; the height test would append a3 to the branch's list [b1; b2]. *)
+Example refused_at_best_height :
+  snd (deliver_f (fun _ => false) (fun id => id =? 13) r4_pre r4_b4) = FReorgRefused /\
+  nd_st (fst (deliver_f (fun _ => false) (fun id => id =? 13) r4_pre r4_b4)) =
+    status_update (main_get (nd_main r4_pre)) [] 4 r4_st2 r4_a3 /\
+  confirm_ids (status_update (main_get (nd_main r4_pre)) [] 4 r4_st2 r4_a3) = [1; 2; 3] /\
+  confirm_ids (status_update_by_height (main_get (nd_main r4_pre)) [] 4 r4_st2 r4_a3) = [11; 12; 3].
+Proof. vm_compute. repeat split; reflexivity. Qed.
